@@ -43,12 +43,14 @@ def generate(rng, tier):
     # partition twins need a voltage stream that is bit-identical however it is requested: exact (dyadic) times
     ant = W.gen_antenna(rng, dyadic=True if common else None)
     el = W.gen_elements(rng, tier, common_prefix=common)
-    be = W.gen_backend(rng, ant, el)
+    # SCALE: hundreds of PFB windows per block (see gen_backend)
+    big = rng.random() < (0.05 if tier == "quick" else 0.1)
+    be = W.gen_backend(rng, ant, el, big_w=big)
     ops = []
-    nrec = rng.choice([1, 1, 2, 3])
+    nrec = rng.choice([1, 1, 2, 3]) if not big else 1
     for i in range(nrec):
-        op = {"op": "record", "num_blocks": rng.choice([1, 2, 2, 3, 4, 5, 6]), "digitize": rng.random() < 0.7,
-              "template": rng.random() < 0.2}
+        op = {"op": "record", "num_blocks": rng.choice([1, 2, 2, 3, 4, 5, 6]) if not big else rng.choice([1, 2]),
+              "digitize": rng.random() < 0.7, "template": rng.random() < 0.2}
         if rng.random() < 0.25:
             k = rng.choice(["enospc", "eio", "open", "source", "interrupt"])
             if k in ("enospc", "eio"):
@@ -77,7 +79,8 @@ def generate(rng, tier):
     if common:
         alts = []
         for _ in range(rng.choice([2, 3, 4])):
-            alts.append({"num_subblocks": rng.randint(1, be["W"] + 3), "blocks_per_file": rng.choice([1, 2, 3, 4, 7])})
+            alts.append({"num_subblocks": rng.randint(1, be["W"] + 3) if not big else rng.choice([1, 2, 3, 4, 5, 93, be["W"]]),
+                         "blocks_per_file": rng.choice([1, 2, 3, 4, 7])})
         sc["partitions"] = alts
     return sc
 
